@@ -164,8 +164,9 @@ def rule_z4(ctx, facts):
     B, S, W, M = (facts.const("RESIZE_STAMP_BITS"), facts.const("RESIZE_STAMP_SHIFT"), facts.const("ISIZE_BITS"), facts.const("MAX_RESIZERS"))
     ctx.inst("Z4", "map::RESIZE_STAMP_BITS", "bits + shift = word", "src/map.rs", B + S == W, "%d + %d == %d" % (B, S, W) if B + S == W else
              "RESIZE_STAMP_BITS + RESIZE_STAMP_SHIFT = %d, word size %d" % (B + S, W))
-    ctx.inst("Z4", "map::MAX_RESIZERS", "MAX_RESIZERS = 2^shift - 1", "src/map.rs", M == (1 << S) - 1, "%d" % M if M == (1 << S) - 1 else
-             "MAX_RESIZERS is %d, expected %d" % (M, (1 << S) - 1))
+    # MAX_RESIZERS is deliberately not constrained: a value that overflows the count field (or a tiny one) only matters with more than
+    # 2^shift - 2 simultaneous helpers resp. limits helping; no clause of C10 depends on it (mutant audit, DESIGN 6.5)
+    ctx.inst("Z4", "map::MAX_RESIZERS", "MAX_RESIZERS (informational)", "src/map.rs", True, "%d (field holds up to %d)" % (M, (1 << S) - 1), nontrivial=False)
     rs = facts.body("map::HashMap::resize_stamp")
     ev = evaluator(rs)
     ok = False
@@ -421,34 +422,63 @@ def rule_z7(ctx, facts):
              "the claim CAS is attempted only when the loaded index is positive" if pos else
              "the claim CAS is attempted although the loaded transfer_index may be <= 0: a participant can claim the empty range for ever")
     # new value strictly below the expected one (and 0 only when the expected one was positive)
-    forms = []
-    if new is not TOP and len(new.symbols()) == 1 and next(iter(new.symbols()))[0] == "phi":
-        forms = ev.def_forms(next(iter(new.symbols()))[1])
-    elif new is not TOP:
-        forms = [(cas.point, new)]
-    ok_forms = bool(forms)
-    desc = []
-    for pt, f in forms:
-        if f is TOP:
-            ok_forms = False
-            desc.append("?")
-            continue
-        desc.append(f.show(tr))
-        if f.is_const() and f.c <= 0 and pos:
-            continue
-        rest = f - Ls
-        # rest = -(k * stride) + c with stride = max(_, MIN) >= MIN > 0: negative iff c < k * MIN
-        if len(rest.symbols()) == 1 and all(v < 0 for v in rest.terms.values()):
-            s0 = next(iter(rest.symbols()))
-            sc = tr.call_at(s0[1]) if s0[0] == "call" else None
-            if sc is not None and callee_str(sc).endswith("cmp::max"):
-                lows = [ev.operand(a) for a in sc.args]
-                lows = [x.c for x in lows if x is not TOP and x.is_const()]
-                if lows and max(lows) > 0 and rest.c < -rest.terms[s0] * max(lows):
-                    continue
-        if rest.is_const() and rest.c < 0:
-            continue
-        ok_forms = False
+    def lower_bound(body, f, depth=0):
+        """a constant c with f >= c, or None"""
+        if f is TOP or depth > 6:
+            return None
+        e2 = evaluator(body)
+        lb = f.c
+        for sym, coef in f.terms.items():
+            if coef < 0:
+                return None
+            sl = None
+            if sym[0] == "call":
+                c = body.call_at(sym[1])
+                cs = callee_str(c)
+                if cs.endswith("cmp::max") or cs.endswith("Ord::max"):
+                    bs = [lower_bound(body, e2.operand(a), depth + 1) for a in c.args]
+                    bs = [x for x in bs if x is not None]
+                    sl = max(bs) if bs else None
+                else:
+                    tb = facts.by_id.get(c.resolved)
+                    if tb is not None and tb.kind != "Closure":
+                        e3 = evaluator(tb)
+                        bs = [lower_bound(tb, g, depth + 1) for _, g in e3.def_forms(0)]
+                        sl = min(bs) if bs and all(x is not None for x in bs) else None
+            elif sym[0] == "phi":
+                bs = [lower_bound(body, g, depth + 1) for _, g in e2.def_forms(sym[1])]
+                sl = min(bs) if bs and all(x is not None for x in bs) else None
+            if sl is None:
+                return None
+            lb += coef * sl
+        return lb
+
+    def below(f, depth=0):
+        """f < Ls on every path (given Ls > 0 when `pos`)"""
+        if f is TOP or depth > 4:
+            return False
+        if f.is_const():
+            return f.c <= 0 and pos
+        # max(a, b) < Ls  iff  a < Ls and b < Ls
+        if len(f.symbols()) == 1 and f.c == 0:
+            s0 = next(iter(f.symbols()))
+            if s0[0] == "call" and f.coeff(s0) == 1:
+                c = tr.call_at(s0[1])
+                cs = callee_str(c)
+                if cs.endswith("cmp::max") or cs.endswith("Ord::max"):
+                    return all(below(ev.operand(a), depth + 1) for a in c.args)
+                if cs.endswith("cmp::min") or cs.endswith("Ord::min"):
+                    return any(below(ev.operand(a), depth + 1) for a in c.args)
+            if s0[0] == "phi" and f.coeff(s0) == 1:
+                fs = ev.def_forms(s0[1])
+                return bool(fs) and all(below(g, depth + 1) for _, g in fs)
+        rest = Ls - f          # must be >= 1
+        lb = lower_bound(tr, rest)
+        return lb is not None and lb >= 1
+
+    forms = [(cas.point, new)] if new is not TOP else []
+    ok_forms = bool(forms) and all(below(f) for _, f in forms)
+    desc = [f.show(tr) if f is not TOP else "?" for _, f in forms]
     ctx.inst("Z7", tr, "every won claim lowers transfer_index", cas.span, ok_forms,
              "the new value is below the loaded one on every path: %s" % desc if ok_forms else
              "the new transfer_index is %s, which is not provably below the loaded value: claiming makes no progress" % desc)
@@ -593,12 +623,16 @@ def run(ctx, facts):
     ctx.rule("Z10", "a bin is migrated only under its lock and after re-validating that the locked node is still the bin's head (rule L1 of C01 on transfer)", floor=2)
     from .rules_c01 import rule_l1
     rule_l1(ctx, facts, rule="Z10", only=("map::HashMap::transfer",))
+    ctx.rule("Z11", "the initialisation ticket (size_ctl = -1) is given back on every path (rule D4 of C11): otherwise the control word stays negative "
+                    "and the table can never grow again", floor=3)
+    from .rules_c11 import rule_d4
+    rule_d4(ctx, facts, rule="Z11")
     ctx.rule("Z9", "the elected finisher sweeps the whole old table (i := len, then downwards) before publishing", floor=1)
     rule_z9(ctx, facts)
     ctx.rule("Z1", "single finisher elected by the last sc-1 CAS; publication block gated, ordered and complete", floor=2)
     ctx.rule("Z2", "next table has twice the old length; transfer index starts at the old length", floor=2)
     ctx.rule("Z3", "resize initiation guarded by len < MAXIMUM_CAPACITY", floor=2)
-    ctx.rule("Z4", "bit layout of size_ctl and of the tree-bin lock word from evaluated constants", floor=4)
+    ctx.rule("Z4", "bit layout of size_ctl and of the tree-bin lock word from evaluated constants", floor=3)
     ctx.rule("Z5", "tickets: a won rs+2 / sc+1 CAS always leads to transfer; transfer gives the ticket back on every exit", floor=5)
     ctx.rule("Z6", "help_transfer and add_count guard the joining CAS by the same four refusals", floor=3)
     rule_z1(ctx, facts)
